@@ -24,7 +24,8 @@ EXPLANATION = (
     '(character class): the trimming predicate of StringUtil::Trim is exactly the whitespace class on both edges (byte sets '
     'computed over all 256 bytes), so invalid bytes stay visible to the validators.')
 EXPLANATION += ' C14.R3 also checks that Delete allocates one member less only behind the key-present edge. C14.R7: the regular expressions of the configured validators, parsed into a normal form over exhaustive byte sets, denote exactly the W3C key / value grammar, and the validator returns true exactly when one of them matches the whole string. The shared rule C09.R7 (no mutable function-local static) is evaluated.'
-NOT_DECIDED = 'grammar exactness of the regular-expression validators; parse/serialise round trip over all strings.'
+NOT_DECIDED = ('that std::regex implements the parsed normal form; the hand-written validators of the non-regex configuration; '
+               'parse/serialise round trip over all strings; Get returning the most recent value over arbitrary histories.')
 
 
 def rule_r1(ck, prog, cls='trace::TraceState', field='kv_properties_', rule='C14.R1'):
